@@ -44,6 +44,12 @@ PARTIALS = {
 }
 
 
+def _markup(s: str) -> Any:
+    from markupsafe import Markup
+
+    return Markup(s)
+
+
 def make_data() -> dict[str, dict[str, Any]]:
     """Data sets; built fresh at the start of every history and then SHARED by its renders."""
     lst = [3, 1, 2, 1]
@@ -62,6 +68,9 @@ def make_data() -> dict[str, dict[str, Any]]:
         "n_i": {"x": 1, "a": [1, 2, 3], "z": 2}, "n_f": {"x": 1.0, "a": [1.0, 2.0, 3.0], "z": 2.0},
         "n_b": {"x": True, "a": [True, 2, 3], "z": 2}, "n_s": {"x": "1", "a": ["1", "2", "3"], "z": "2"},
         "m_t": {"x": True}, "m_f": {"x": False},
+        # text that compares (and hashes) equal but differs in "safe" marking: str vs markupsafe.Markup
+        "t_plain": {"x": "a<b>&\"' z"}, "t_safe": {"x": _markup("a<b>&\"' z")},
+        "t_plain2": {"x": "PGI+ %3C&lt;"}, "t_safe2": {"x": _markup("PGI+ %3C&lt;")},
     }
 
 
@@ -93,10 +102,19 @@ TEMPLATES: dict[str, str] = {
     "macsel": "{% if x %}{% macro m a, b: 'B' %}<{{ a }}:{{ b }}>{% endmacro %}{% else %}{% macro m b, a: 'A' %}<{{ a }}:{{ b }}>{% endmacro %}{% endif %}{% call m 'one' %}",
     "withsel": "{% if x %}{% with v: 1 %}{{ v }}{% endwith %}{% else %}{% with v: 2, w: 3 %}{{ v }}{{ w }}{% endwith %}{% endif %}{% cycle x: 'a', 'b' %}",
 }
+# string filters applied (under autoescape) to equal text with and without the safe mark
+STR_FILTERS = ["append: 'k'", "base64_decode", "base64_encode", "base64_url_safe_decode", "base64_url_safe_encode",
+               "capitalize", "downcase", "escape", "escape_once", "escapejs", "lstrip", "newline_to_br", "prepend: 'k'",
+               "remove: 'a'", "remove_first: 'a'", "remove_last: 'a'", "replace: 'a', 'z'", "replace_first: 'a', 'z'",
+               "replace_last: 'a', 'z'", "rstrip", "slice: 1, 3", "split: ' ' | join: '-'", "squish", "strip",
+               "strip_html", "strip_newlines", "truncate: 4", "truncatewords: 1", "upcase", "url_decode", "url_encode",
+               "default: 'd'", "first", "last", "size", "json", "t", "safe", "reverse", "join: ','", "concat: x | join: ''"]
 # every filter applied to x / a with a second operand z: outputs for equal numbers of different type
 NUM_FILTERS = ["abs", "at_least", "at_most", "ceil", "divided_by", "floor", "minus", "modulo", "plus", "round", "times",
                "sum", "sort", "sort_numeric", "uniq", "first", "last", "join", "size", "json", "default", "append",
                "date", "slice", "truncate", "compact", "reverse", "concat", "index", "map", "where"]
+for _i, _f in enumerate(STR_FILTERS):
+    TEMPLATES[f"sf_{_i}"] = "{{ x | %s }}" % _f
 for _f in NUM_FILTERS:
     # one filter application per template: an error in one form must not mask the other
     TEMPLATES["nx_" + _f] = "{{ x | %s }}" % _f
@@ -117,6 +135,9 @@ FAMILIES: dict[str, list[tuple[str, str, str]]] = {
                  ("glob", "E", "E"), ("glob", "i1", "A"), ("tern", "L", "E"), ("trans", "i1", "E"), ("trans", "L", "A"),
                  ("macsel", "m_t", "E"), ("macsel", "m_f", "E"), ("withsel", "m_t", "E"), ("withsel", "m_f", "E")],
 }
+for _i in range(len(STR_FILTERS)):
+    FAMILIES[f"num:sf_{_i}"] = [(f"sf_{_i}", d, e) for d in ("t_plain", "t_safe", "t_plain2", "t_safe2") for e in ("A",)] + \
+                               [(f"sf_{_i}", "t_plain", "E"), (f"sf_{_i}", "t_safe", "E")]
 # one small family per filter: the same template with inputs that compare equal but differ in type
 for _f in NUM_FILTERS:
     for _t in ("nx_", "nz_", "na_", "nb_"):
@@ -351,8 +372,9 @@ class C17(Check):
             # not share inputs that could collide with themselves within a batch, and any cross-filter effect
             # would itself be a history dependence that the family histories then expose as a mismatch.
             fams = shard[1]
-            for d in ("n_i", "n_f", "n_b", "n_s"):
-                batch = [[a] for f in fams for a in FAMILIES[f] if a[1] == d]
+            dkeys = sorted({(a[1], a[2]) for f in fams for a in FAMILIES[f]})
+            for d in dkeys:
+                batch = [[a] for f in fams for a in FAMILIES[f] if (a[1], a[2]) == d]
                 outs = run_sequence_in_child(batch)
                 for h, recs in zip(batch, outs):
                     _PRISTINE.setdefault(tuple(h[0]), recs[0]["out"])
